@@ -345,6 +345,22 @@ class SymEx:
                          'Eq': operator.eq, 'Ne': operator.ne}[op]
                     return ('c', f(a[1], c[1]))
                 return mk_cmp(op, a, c)
+            base = op[:-len('WithOverflow')] if op.endswith('WithOverflow') else op.replace('Unchecked', '')
+            if a[0] == 'c' and c[0] == 'c' and isinstance(a[1], int) and isinstance(c[1], int) and not isinstance(a[1], bool) and not isinstance(c[1], bool):
+                folded = None
+                try:
+                    if base == 'Add': folded = a[1] + c[1]
+                    elif base == 'Sub': folded = a[1] - c[1]
+                    elif base == 'Mul': folded = a[1] * c[1]
+                    elif base == 'Div' and c[1] != 0: folded = a[1] // c[1]
+                    elif base == 'Shl': folded = a[1] << c[1]
+                    elif base == 'Shr': folded = a[1] >> c[1]
+                    elif base == 'BitAnd': folded = a[1] & c[1]
+                    elif base == 'BitOr': folded = a[1] | c[1]
+                except Exception:
+                    folded = None
+                if folded is not None and a[1] != 0 and c[1] != 0 and base in ('Mul', 'Div', 'Shl', 'Shr', 'BitAnd', 'BitOr'):
+                    return ('ovfpair', ('c', folded)) if op.endswith('WithOverflow') else ('c', folded)
             if op.endswith('WithOverflow'):
                 return ('ovfpair', ('bin', op[:-len('WithOverflow')], a, c))
             if op in ('BitAnd', 'BitOr') and (self.is_boolish(a) or self.is_boolish(c)):
